@@ -37,34 +37,32 @@ Theorem C16_refines : forall (E : env) (ops : list op),
 Proof. exact refines. Qed.
 Print Assumptions C16_refines.
 
-(** Sentence 1 of the property read literally ("no TAB ever reaches the terminal inside a bar
-    line") is FALSE for the faithful model: a TAB inside a tick string is copied into the bar
-    line as it is (style.rs:275; the same holds for progress characters, style.rs:698-708).
-    The witness is replayed on the implementation by the harness corpus
-    (class 'tab-in-tick-or-progress-chars'). *)
-Theorem C16_no_tab_refuted :
-  exists (E : env) (ops : list op), env_ok E /\ ~ Forall out_notab (snd (run E bar_init ops)).
-Proof.
-  exists (chk_env 40 [] [] []),
-         [SetStyleNew [] (mkglyphs [[9]; [120]] [[35]; [45]] 1) [TPh (bare KSpinner)]; Tick].
-  split; [intros d id w H; exact H|].
-  vm_compute. intros H. inversion H as [|? ? _ H1]; subst. inversion H1 as [|? ? H2 _]; subst.
-  inversion H2 as [|? ? H3 _]; subst. apply H3. left. reflexivity.
-Qed.
-Print Assumptions C16_no_tab_refuted.
-
-(** Outside that class the sentence holds for EVERY template: no TAB in any bar line of any
-    draw - message, prefix, template literals, custom-key output, bare or inside a sized /
-    aligned / truncated / styled field or inside wide_msg - nor in what message()/prefix()
-    return; every history, every tab width including 0, every environment.
-    [op_ok]: the tick strings and progress characters of every style installed are TAB-free
-    (the complement of the class above) and so are the escape sequences console::Style writes;
+(** THE PROPERTY's first sentence, for EVERY template and every style the builders accept: no TAB
+    in any bar line of any draw - message, prefix, template literals, custom-key output, tick
+    strings (expanded at render time with the style's current tab width since 6ff82af), bare or
+    inside a sized / aligned / truncated / styled field or inside wide_msg, progress characters
+    (the builder rejects a TAB, style.rs:157-158: such a `SetStyleNew` yields [OBuildPanic] and
+    leaves the bar as it was) - nor in what message()/prefix() return; every history, every tab
+    width including 0, every environment.
+    Remaining hypotheses, both about what other crates / properties write verbatim into a line:
+    [op_ok]: the escape sequences console::Style writes around a styled placeholder are TAB-free;
     [env_ok]: so is the text of the numeric / time keys.  The text given to println is not a bar
     line and is unconstrained. *)
-Theorem C16_no_tab_outside_known : forall (E : env) (ops : list op),
+Theorem C16_no_tab : forall (E : env) (ops : list op),
   env_ok E -> Forall op_ok ops -> Forall out_notab (snd (run E bar_init ops)).
 Proof. exact no_tab. Qed.
-Print Assumptions C16_no_tab_outside_known.
+Print Assumptions C16_no_tab.
+
+(** Regression statement about the rendering BEFORE commit 6ff82af: the {spinner} arm pushed the
+    tick string as stored ([tick_text]) into the line, and that can hold a TAB (witness
+    tick_strings(["\t","x"]), the former C16_no_tab_refuted / finding D29); the arm as it is now
+    writes a TAB-free text for every style, tick count and tab width.  The former witness is in
+    the harness corpus and must draw spaces. *)
+Theorem C16_no_tab_refuted_pre_6ff82af :
+  (exists (g : glyphs) (tick : N) (fin : bool), ~ notab (tick_text g tick fin))
+  /\ (forall (c : rctx) (h : ph), p_key h = KSpinner -> notab (static_buf c h)).
+Proof. exact (conj tick_text_can_have_tab spinner_buf_notab). Qed.
+Print Assumptions C16_no_tab_refuted_pre_6ff82af.
 
 (** What format_state does to a placeholder's text keeps it TAB-free, whatever the column
     widths are: padding / truncation of a sized field (PaddedStringDisplay), trimming, and the
@@ -137,7 +135,7 @@ Qed.
 (* "a<TAB>b{msg}" with message "<TAB>", custom key 0 writing "x<TAB>" *)
 Definition ex_style : op := SetStyleNew [(0, [[120; 9]])] default_glyphs [TLit [97; 9; 98]; TMsg; TKey 0].
 Example C16_ex_style_ok : op_ok ex_style.
-Proof. split; [exact default_glyphs_ok | repeat constructor]. Qed.
+Proof. repeat constructor. Qed.
 (* width set after everything, between, or first: the same final frame, caches or not *)
 Example C16_ex_orders :
   let final ops := last (snd (run exE bar_init (ops ++ [Tick]))) ONone in
@@ -197,3 +195,14 @@ Example C16_ex_finish_using_style :
   = [ONone; ONone; ONone; ODraw [] [[32; 33]]; OGot [32; 33]; ONone; ODraw [] [];
      ODraw [[120; 9]; [121]] []].
 Proof. reflexivity. Qed.
+
+(* the former D29 witnesses on the code as it is now: tick_strings(["\t","x"]) + {spinner} draws the
+   TAB as 8, then 2 spaces (always the current width: it is expanded at render time);
+   progress_chars("#\t") is rejected by the builder and the bar keeps its style *)
+Example C16_ex_tick_tab_expanded :
+  snd (run exE bar_init [SetStyleNew [] (mkglyphs [[9]; [120]] [[35]; [45]] 1) [TPh (bare KSpinner)];
+                         Tick; SetTabWidth 2])
+  = [ONone; ODraw [] [[32; 32; 32; 32; 32; 32; 32; 32]]; ODraw [] [[32; 32]]]
+  /\ snd (run exE bar_init [SetStyleNew [] (mkglyphs [[45]; [120]] [[35]; [9]] 1) [TMsg]; Tick])
+     = [OBuildPanic; ODraw [] [rep [9617] 36 ++ [32; 48; 47; 48]]].
+Proof. split; reflexivity. Qed.
